@@ -5,11 +5,13 @@ import (
 	"encoding/hex"
 	"errors"
 	"fmt"
+	"io"
 	"math"
 	"runtime"
 	"strings"
 	"time"
 
+	"github.com/ipfs/go-cid"
 	"github.com/ipld/go-ipld-prime/codec"
 	"github.com/ipld/go-ipld-prime/codec/cbor"
 	"github.com/ipld/go-ipld-prime/codec/dagcbor"
@@ -17,10 +19,13 @@ import (
 	"github.com/ipld/go-ipld-prime/codec/json"
 	"github.com/ipld/go-ipld-prime/codec/raw"
 	"github.com/ipld/go-ipld-prime/datamodel"
+	"github.com/ipld/go-ipld-prime/linking"
+	cidlink "github.com/ipld/go-ipld-prime/linking/cid"
 	"github.com/ipld/go-ipld-prime/node/basicnode"
 	"github.com/ipld/go-ipld-prime/node/bindnode"
 	"github.com/ipld/go-ipld-prime/node/gendemo"
 	"github.com/ipld/go-ipld-prime/traversal"
+	mh "github.com/multiformats/go-multihash"
 	rcbor "github.com/polydawn/refmt/cbor"
 
 	"verif/internal/core"
@@ -568,6 +573,36 @@ func runC10(c *core.Ctx) error {
 		}
 		c.Count("walk.reified "+kind+" "+walkLine(g, spec, core.WalkCfg{}), true)
 		c.Dist("reified-walk:" + kind)
+	}
+	// walks over decoded UNTRUSTED data holding links no honest store would hand out (a multihash declaring more digest
+	// than its function yields, oversized identity multihashes), with a block source that answers every request
+	for i := 0; i < c.Pick(150, 10000); i++ {
+		r := c.Rand
+		code := []uint64{mh.SHA2_256, mh.SHA2_512, mh.SHA1, mh.IDENTITY}[r.Intn(4)]
+		digest := r.Bytes(1 + r.Intn(130))
+		enc, err := mh.Encode(digest, code)
+		if err != nil {
+			continue
+		}
+		lnk := cidlink.Link{Cid: cid.NewCidV1([]uint64{0x55, 0x71}[r.Intn(2)], enc)}
+		answer := r.Bytes(r.Intn(70))
+		lsys := cidlink.DefaultLinkSystem()
+		lsys.StorageReadOpener = func(linking.LinkContext, datamodel.Link) (io.Reader, error) { return bytes.NewReader(answer), nil }
+		root, _ := core.BuildBasic(core.Map(core.KV{K: []byte("next"), V: core.Link(lnk.Cid.Bytes())}, core.KV{K: []byte("x"), V: core.Int(1)}), nil)
+		sel, _ := core.CompileSel(core.SelAll())
+		var werr error
+		_, panicked, pv := core.Catch(func() error {
+			werr = traversal.Progress{Cfg: &traversal.Config{LinkSystem: lsys, LinkTargetNodePrototypeChooser: func(datamodel.Link, linking.LinkContext) (datamodel.NodePrototype, error) {
+				return basicnode.Prototype.Any, nil
+			}}}.WalkAdv(root, sel, func(traversal.Progress, datamodel.Node, traversal.VisitReason) error { return nil })
+			return nil
+		})
+		caseID := fmt.Sprintf("walk.hostile-link mh=0x%x digest=%x answer=%x", code, digest, answer)
+		c.Count(caseID, true)
+		c.Dist("hostile-link-walk")
+		if panicked {
+			c.Fail("C10/walk-panics", core.Replay{Kind: "oracle", Case: caseID, Impl: fmt.Sprint(pv), Expected: "an error (" + fmt.Sprint(werr) + ")", Detail: "explore-all walk over data holding a link whose multihash no hash function output matches"})
+		}
 	}
 	// ParsePath / Get on arbitrary strings
 	for i := 0; i < c.Pick(1000, 50000); i++ {
